@@ -1305,6 +1305,31 @@ def _hoist_helper_arg(st, resolve, owner):
     return None
 
 
+def _writelines_loops(func, resolve):
+    """statement `F.writelines(self._pieces(..))` with `_pieces` a generator helper  ->  `for piece in self._pieces(..): F.write(piece)`
+    (what writelines does with an iterable of strings), so that the producer can be merged into the loop (inline_generator_loops)"""
+    class W(ast.NodeTransformer):
+        def visit_Expr(self, n):
+            c = n.value
+            if isinstance(c, ast.Call) and isinstance(c.func, ast.Attribute) and c.func.attr == "writelines" and len(c.args) == 1 and not c.keywords \
+                    and isinstance(c.func.value, ast.Name) and isinstance(c.args[0], ast.Call):
+                r = resolve(c.args[0])
+                if r is not None and r[0] is not func and _generator_callee(r[0]):
+                    var = f"_piece{next(_counter)}"
+                    call = ast.Call(func=ast.Attribute(value=copy.deepcopy(c.func.value), attr="write", ctx=ast.Load()), args=[ast.Name(id=var, ctx=ast.Load())], keywords=[])
+                    loop = ast.For(target=ast.Name(id=var, ctx=ast.Store()), iter=c.args[0], body=[ast.Expr(value=call)], orelse=[])
+                    return ast.fix_missing_locations(ast.copy_location(loop, n))
+            return n
+
+        def visit_FunctionDef(self, n):
+            if n is func:
+                self.generic_visit(n)
+            return n
+        visit_AsyncFunctionDef = visit_ClassDef = visit_Lambda = lambda self, n: n
+    W().visit(func)
+    return func
+
+
 def expand_helpers(func, resolve):
     """A function with the helpers it was split into put back (in place; hand in a copy).  resolve(call) -> (callee FunctionDef,
     receiver expr | None) | None decides which calls are helpers (pymodel.Package.expanded: methods of the same class reached
@@ -1329,6 +1354,7 @@ def expand_helpers(func, resolve):
             out.append(st)
         return out
     func.body = prepare(func.body)
+    _writelines_loops(func, resolve)
     inline_generator_loops(func, resolve)
     inline_stmt_calls(func, resolve)
     before = len(func.body), sum(1 for _ in ast.walk(func))
@@ -2078,7 +2104,7 @@ def _generator_callee(callee) -> bool:
                 return False
         if isinstance(n, ast.Expr) and isinstance(n.value, ast.Yield):
             stmt_yields += 1
-    return 1 <= yields <= 3 and yields == stmt_yields
+    return 1 <= yields <= 6 and yields == stmt_yields
 
 
 def _inline_generator_loops_multi(func, resolve, max_depth: int = 2):
